@@ -7,5 +7,6 @@ CONSTANTS
   MaxFail = 0
   AllowOk = FALSE
   StopInRetry = TRUE
+  Relay = FALSE
   RecordHist = FALSE
 PROPERTIES CancelEnds StopEnds
